@@ -363,3 +363,11 @@ def selection(ctx):
     mixed audience fail depending on hash-set order."""
     from . import c11
     c11.selection(ctx)
+
+
+@rule('C18', 'instance-is-stateless')
+def instance_is_stateless(ctx):
+    """'re-encapsulation with the master key preserves the audience' as the master key stands NOW: the rights of an encapsulation are recovered by opening it with the given master key, never remembered from an earlier call. Structurally: the scheme instance holds its random generator and nothing else, and no type of the crate has an
+    interior-mutable field — no cache, no memo, no static, no thread-local (C19.state-audit)."""
+    from . import c19
+    c19.state_audit(ctx)
